@@ -1165,6 +1165,63 @@ async def peer_deletes(ctx: Ctx, cfg: str, how: str, cmds: list[bytes]) \
         env.cleanup()
 
 
+async def lock_times_out(ctx: Ctx, cfg: str, first: bytes, second: bytes) \
+        -> None:
+    """maildir: a foreign process holds the uidlist lock of BoxB for longer
+    than the server waits.  SELECT/EXAMINE BoxB then fails (NO [TIMEOUT]):
+    "a failed one leaves none selected" - whatever was selected before."""
+    import os
+    env = await build_env(cfg)
+    try:
+        await provision(env)
+        a = Conn(1, Sched())
+        a.start(env.imap)
+        await a.greeting()
+        await _must(a, b'LOGIN u1 pw1')
+        if first:
+            await _must(a, first)
+        base = getattr(env, 'base_dir', None)
+        lock = None
+        for root, dirs, files in os.walk(base or '/nonexistent'):
+            if root.endswith('BoxB') and 'dovecot-uidlist' in files:
+                lock = os.path.join(root, 'dovecot-uidlist.lock')
+        if lock is None:
+            ctx.count('lock_slice_unavailable')
+            return
+        os.close(os.open(lock, os.O_CREAT | os.O_EXCL | os.O_WRONLY))
+        tag = a.next_tag()
+        task = a.loop.create_task(a.command(
+            tag, [tag + b' ' + second + b'\r\n'], delay=False))
+        for _ in range(60):
+            await _settle(a)
+            if task.done():
+                break
+            await a.loop.advance(1.0)       # type: ignore[attr-defined]
+        os.unlink(lock)
+        if not task.done():
+            task.cancel()
+            ctx.count('lock_slice_stuck')
+            return
+        r = task.result()
+        ctx.count('selects_under_held_lock')
+        if _cond(r) != 'REFUSED':
+            return          # the lock did not matter for this command
+        r2 = await send(a, b'FETCH 1 (FLAGS)')
+        r3 = await send(a, b'CLOSE')
+        what = '%s; %s refused (%r) while the uidlist lock of BoxB is ' \
+            'held [%s]' % (first.decode() or '(nothing selected)',
+                           second.decode(), r.tagged.raw[:60]
+                           if r.tagged else None, cfg)
+        if r2 is not None and _cond(r2) == 'OK':
+            ctx.report('select-failed-but-still-selected',
+                       what + ': FETCH is answered OK afterwards')
+        elif r3 is not None and _cond(r3) == 'OK':
+            ctx.report('select-failed-but-still-selected',
+                       what + ': CLOSE is answered OK afterwards')
+    finally:
+        env.cleanup()
+
+
 async def explore(ctx: Ctx, prefix: list[str], extend: bool,
                   report_from: int, tag: str) -> None:
     """Clone runs for every prefix of ``prefix`` (and, with ``extend``, for
@@ -1358,6 +1415,12 @@ class C05(Check):
                                  'symbols': ['LOGIN_OK', sel, 'IDLE', x],
                                  'pipe_idle': True})
         out += pipe
+        # a SELECT that fails on a lock time-out, after every way of having
+        # something selected
+        for first in ('', 'SELECT BoxA', 'EXAMINE BoxA', 'SELECT Sink'):
+            for second in ('SELECT BoxB', 'EXAMINE BoxB'):
+                out.append({'kind': 'lock', 'config': 'maildir',
+                            'first': first, 'second': second})
         # the selected mailbox disappears under the connection
         prng = random.Random(seed * 31 + 55)
         for cfg in (['dict', 'maildir'] if quick else list(CONFIGS)):
@@ -1405,6 +1468,10 @@ class C05(Check):
             if kind in ('exh', 'matrix'):
                 p = list(spec['prefix'])
                 await explore(ctx, p, True, len(p) + 1, 'prefix_steps')
+            elif kind == 'lock':
+                await lock_times_out(ctx, cfg,
+                                     spec['first'].encode('latin-1'),
+                                     spec['second'].encode('latin-1'))
             elif kind == 'peer':
                 await peer_deletes(ctx, cfg, spec['how'],
                                    [c.encode('latin-1')
